@@ -173,7 +173,18 @@ def value_universe(ctx):
     return dom
 
 
+def deductive(ctx):
+    """engine D: every path of one arbitrary iteration of Task._compute_hashes enters the field's own current value under its
+    own name into the hashed dict unless the field is an output / unset / container-path field; the Outputs class is entered;
+    the returned digest is hash_function(sorted(per-field digests.items())) -- contracts/compute_hashes.py"""
+    from contracts import compute_hashes as CH
+    from pyvc.verify import verify, summarize
+
+    summarize(ctx, verify(ctx, CH.contract()))
+
+
 def run(ctx):
+    deductive(ctx)
     ctx.level = "other"
     ctx.explanation = (
         "pairs of deterministic python / shell / workflow tasks differing in exactly one semantically relevant aspect are submitted as histories into one cache root through the real "
